@@ -28,7 +28,7 @@ func Main() {
 }
 
 type nodeState struct {
-	Max, Used, Ec int // for the default (hdd) disk type
+	Max, Used, Ec   int // for the default (hdd) disk type
 	SsdMax, SsdUsed int
 }
 
@@ -37,13 +37,14 @@ type shape struct {
 }
 
 type cas struct {
-	Shape  [][]int     `json:"shape"`
-	States []nodeState `json:"states"`
-	Rp     string      `json:"rp"`
-	Pref   []string    `json:"pref"` // dc, rack, node ("" = none)
-	Disk   string      `json:"disk"`
-	Perm   int         `json:"perm"`  // naming permutation (iteration order)
-	Answers []int      `json:"answers,omitempty"`
+	Shape   [][]int     `json:"shape"`
+	States  []nodeState `json:"states"`
+	Rp      string      `json:"rp"`
+	Pref    []string    `json:"pref"` // dc, rack, node ("" = none)
+	Disk    string      `json:"disk"`
+	Perm    int         `json:"perm"`             // naming permutation (iteration order)
+	Adjust  bool        `json:"adjust,omitempty"` // servers register with max-1 per disk type and reach their max through a later heartbeat (AdjustMaxVolumeCounts)
+	Answers []int       `json:"answers,omitempty"`
 }
 
 type nodeRef struct {
@@ -77,7 +78,17 @@ func build(c cas) (*topology.Topology, []nodeRef) {
 				if st.SsdMax > 0 {
 					maxes["ssd"] = uint32(st.SsdMax)
 				}
-				dn := rack.GetOrCreateDataNode(ip, 8080, "", maxes)
+				first := maxes
+				if c.Adjust {
+					first = map[string]uint32{}
+					for k, v := range maxes {
+						if v > 0 {
+							v--
+						}
+						first[k] = v
+					}
+				}
+				dn := rack.GetOrCreateDataNode(ip, 8080, "", first)
 				var vols []*master_pb.VolumeInformationMessage
 				for u := 0; u < st.Used; u++ {
 					vols = append(vols, &master_pb.VolumeInformationMessage{Id: vid, Size: 1, Version: 3})
@@ -90,6 +101,9 @@ func build(c cas) (*topology.Topology, []nodeRef) {
 				topo.SyncDataNodeRegistration(vols, dn)
 				if st.Ec > 0 {
 					topo.SyncDataNodeEcShards([]*master_pb.VolumeEcShardInformationMessage{{Id: 900 + uint32(k), EcIndexBits: uint32(1<<uint(st.Ec)) - 1}}, dn)
+				}
+				if c.Adjust {
+					dn.AdjustMaxVolumeCounts(maxes)
 				}
 				refs = append(refs, nodeRef{dcName, rackName, string(dn.Id()), st})
 				k++
@@ -394,15 +408,20 @@ func run(r *mc.Run) {
 									}
 									for perm := 0; perm < 2; perm++ {
 										for _, pf := range prefsOf(sh, perm) {
-											disk, x, y, z, perm, pf := disk, x, y, z, perm, pf
-											f(idx, func() cas {
-												st := make([]nodeState, nn)
-												for i, v := range ix {
-													st[i] = m[v]
+											for adj := 0; adj < 2; adj++ {
+												if adj == 1 && !isEc {
+													continue // the later-heartbeat variant only where servers have two disk types in the menu
 												}
-												return cas{Shape: sh, States: st, Rp: fmt.Sprintf("%d%d%d", x, y, z), Disk: disk, Perm: perm, Pref: pf}
-											})
-											idx++
+												disk, x, y, z, perm, pf, adj := disk, x, y, z, perm, pf, adj
+												f(idx, func() cas {
+													st := make([]nodeState, nn)
+													for i, v := range ix {
+														st[i] = m[v]
+													}
+													return cas{Shape: sh, States: st, Rp: fmt.Sprintf("%d%d%d", x, y, z), Disk: disk, Perm: perm, Pref: pf, Adjust: adj == 1}
+												})
+												idx++
+											}
 										}
 									}
 								}
